@@ -140,6 +140,14 @@ func init() {
 		Rule:        "rapid: valid box at any zooms x two shifts; dx,dy from {0,+-1,+-2^h,+-(2^h-1),+-(2^h+1),+-2*2^h,+-4*2^h,...} or uniform in [-4*2^h,4*2^h]; dv from edge constants or uniform in +-2^61. Sweep: every box at h<=3 x every dx,dy in [-2*2^h-1, 2*2^h+1]; edge boxes and shifts at h=4..35. Non-trivial: a wrap occurs on x or y, or h>=32, or h=0.",
 		Assumptions: []string{"oracle: integer modular arithmetic; results compared as strings", "vertical shifts limited to +-2^61 so that index sums stay inside int64"},
 		Gen:         genC07, Check: checkC07, Classify: classifyC07, Sweep: sweepC07,
+		Related: func(c *CaseC07) []*CaseC07 {
+			var out []*CaseC07
+			if b := (ref.Box{H: c.Box.H + 1, X: c.Box.X, Y: c.Box.Y, V: c.Box.V + 1, F: c.Box.F}); b.Valid() {
+				out = append(out, &CaseC07{Box: b, DX: c.DX, DY: c.DY, DV: c.DV, DX2: c.DX2, DY2: c.DY2, DV2: c.DV2})
+			}
+			out = append(out, &CaseC07{Box: c.Box, DX: c.DY, DY: c.DX, DV: -c.DV, DX2: c.DX2, DY2: c.DY2, DV2: c.DV2})
+			return out
+		},
 		SweepScopes: func(tier string) []string {
 			if tier == "quick" {
 				return []string{"every box at h<=2 x every (dx,dy) in [-2*2^h-1, 2*2^h+1]^2 (exhaustive)", "h=4..35: 3 edge tiles x 10 edge shifts"}
